@@ -949,7 +949,7 @@ func (d *driver) runHistory(seed uint64, heights int, rep int) *histOut {
 			if strings.Contains(ans[i], "UNKNOWN") {
 				sig = "harness-missing-observation"
 			}
-			d.fail(out, "divergence", sig, fmt.Sprintf("replica %s at line %d `%s`: %s", s.r.name, i, lines[i], ans[i]), lines)
+			d.fail(out, "divergence", sig, fmt.Sprintf("replica %s at line %d `%s`: %s", s.r.name, i, lines[i], ans[i]), lines[:i+1])
 		}
 		res.Count("model:sessions")
 		res.CountN("model:lines", len(lines))
@@ -994,6 +994,7 @@ func main() {
 	gapFail := flag.Bool("gap-as-failure", false, "report the commit-info gap as a failure")
 	conc := flag.Bool("concurrent", true, "CheckTx from a concurrent goroutine during block processing")
 	backends := flag.String("backends", "badger,pathbadger", "node database backends to alternate")
+	dump := flag.String("dump", "", "directory to write the model sessions of the first history to")
 	flag.Parse()
 
 	res := hlib.NewResult("muxdrv", *seed)
@@ -1018,8 +1019,15 @@ func main() {
 		if len(lines) == 1 && strings.HasPrefix(lines[0], "history seed=") {
 			var s uint64
 			var h int
-			fmt.Sscanf(lines[0], "history seed=%d height=%d", &s, &h)
+			var b string
+			fmt.Sscanf(lines[0], "history seed=%d heights=%d backend=%s", &s, &h, &b)
 			*replaySeed = s
+			if h > 0 {
+				*heights = h
+			}
+			if b != "" {
+				*backends = b
+			}
 		} else {
 			modelOnly(lines)
 			res.Write(*out)
@@ -1059,13 +1067,16 @@ func main() {
 			res.Count("backend:" + b)
 			for _, f := range ho.failures {
 				f.Seed = cs
-				if len(f.Case) == 1 && strings.HasPrefix(f.Case[0], "history") {
-					f.Case = []string{fmt.Sprintf("history seed=%d height=0 backend=%s", cs, b)}
-				}
 				res.Fail(f)
 			}
 			if rep == 0 {
 				first = ho.appHashes
+				if *dump != "" && i == 0 {
+					_ = os.MkdirAll(*dump, 0o755)
+					for name, l := range ho.lines {
+						_ = os.WriteFile(fmt.Sprintf("%s/session-%s.txt", *dump, name), []byte(strings.Join(l, "\n")+"\n"), 0o644)
+					}
+				}
 				if i < 2 {
 					for _, l := range ho.lines {
 						if len(l) > 60 {
@@ -1078,7 +1089,7 @@ func main() {
 			} else if !equalStrs(first, ho.appHashes) {
 				res.Fail(hlib.Failure{Kind: "spec", Sig: "apphash-chain-differs-between-runs", Seed: cs,
 					Detail: fmt.Sprintf("the same history gave AppHash chain %v on the first run and %v on run %d", first, ho.appHashes, rep),
-					Case:   []string{fmt.Sprintf("history seed=%d height=0 backend=%s", cs, b)}})
+					Case:   []string{fmt.Sprintf("history seed=%d heights=%d backend=%s", cs, *heights, b)}})
 			}
 			if len(ho.failures) > 0 {
 				break
